@@ -14,9 +14,15 @@
 //! unknown older one.
 //! Each response stream is recorded, then fed through a real
 //! `XfrResponseInterpreter` + `ZoneUpdater` into a second zone; the two
-//! zones' walks are logged.  spec/Trace_Xfr.tla validates every event.
+//! zones' walks are logged; it is also received through a real
+//! `net::client::stream::Connection` with a multi-response request (what
+//! `get_response()` hands out is logged as `client`).  spec/Trace_Xfr.tla
+//! validates every event.
 //!
 //! usage: record_xfr <trace.ndjson> <seed> <rounds>
+#[path = "../client.rs"]
+#[allow(dead_code, unused)]
+mod client;
 #[path = "../xfr.rs"]
 mod xfr;
 
@@ -431,6 +437,10 @@ fn main() {
             let sizes: Vec<usize> = msgs.iter().map(|m| m.as_slice().len()).collect();
             let abs: Vec<Value> = msgs.iter().map(abstract_msg).collect();
             let sender_msgs = msgs.clone();
+            // the same messages received through a real stream::Connection
+            // (multi-response request): what get_response() hands out
+            let octets: Vec<Vec<u8>> = msgs.iter().map(|m| m.as_slice().to_vec()).collect();
+            let client = client_run(qtype.to_int(), &octets, &vec![true; octets.len()]);
             let r = std::panic::catch_unwind(std::panic::AssertUnwindSafe(|| {
                 rt.block_on(receive(&zone2, &reqmsg, msgs, MAX_N))
             }));
@@ -446,6 +456,7 @@ fn main() {
                             "sizes": sizes, "msgs": abs,
                             "rold": {"soa": rs, "recs": rrecs},
                             "rsteps": rsteps, "rfinal": rfinal, "rpanic": rpanic,
+                            "client": client,
                             "sender": walk_content(&zone, MAX_N)}));
             // The same stream with its closing SOA corrupted: same serial,
             // MINIMUM 61 instead of 60 (the last octet of the last message;
@@ -462,6 +473,8 @@ fn main() {
                 octets[n - 1] ^= 1;
                 *bad.last_mut().unwrap() = Message::from_octets(Bytes::from(octets)).unwrap();
                 let abs_bad: Vec<Value> = bad.iter().map(abstract_msg).collect();
+                let octets: Vec<Vec<u8>> = bad.iter().map(|m| m.as_slice().to_vec()).collect();
+                let client = client_run(qtype.to_int(), &octets, &vec![true; octets.len()]);
                 let zone3 = build_zone(rs, &rrecs);
                 let r = std::panic::catch_unwind(std::panic::AssertUnwindSafe(|| {
                     rt.block_on(receive(&zone3, &reqmsg, bad, MAX_N))
@@ -472,7 +485,8 @@ fn main() {
                 };
                 tw.event(json!({"ev": "xfer_bad", "req": qtype.to_int(), "from": from,
                                 "msgs": abs_bad, "rold": {"soa": rs, "recs": rrecs},
-                                "rsteps": rsteps, "rfinal": rfinal, "rpanic": rpanic}));
+                                "rsteps": rsteps, "rfinal": rfinal, "rpanic": rpanic,
+                                "client": client}));
             }
         }
         // --- IXFR over UDP: one message within hint - reserved, or the lone
